@@ -2,7 +2,7 @@
 LEN_GUARD / CAP_GUARD and the shape of guard_len / guard_cap (specialization/mod.rs), B of the B-tree reflection
 (specialization/btree.rs), the hashbrown group width and the inverted EMPTY/DELETED mask (specialization/hashbrown.rs),
 and the ORDER in which parse_vec_dequeue_inner clamps the capacity and reduces the head (the defect repaired by
-6655f7c: `guard_cap` was applied to the capacity before `head % cap`; now the capacity that positions the ring is unclamped).  A pattern that is not found raises: broken tie."""
+26a941a: `guard_cap` was applied to the capacity before `head % cap`; now the capacity that positions the ring is unclamped).  A pattern that is not found raises: broken tie."""
 import re
 
 def extract(read):
